@@ -29,7 +29,7 @@ func C17(c *run.Ctx) {
 	c.Need("c17_second_use_refused", 1)
 	c.Need("c17_override_attempts", 1)
 	c.Need("c17_push_refused", 1)
-	n := c.N(160, 5000)
+	n := c.N(160, 40000)
 	for i := 0; i < n; i++ {
 		gi := i*c.NShards + c.Shard
 		r := caseRng(c, i)
